@@ -108,7 +108,11 @@ DATA_SETS = [
     [("a", b""), ("etc/name with  two spaces", b"\x00\x01\xff"), ("etc/trailing ", b"t")],
     [],
     [("usr/lib/..data", b"d"), ("usr/lib/x.so.1", b"\x7fELF" + b"\x00" * 40)],
+    # a member whose compressed size exceeds every decompressor's read buffer (8 KiB lzma/xz, 128 KiB gzip), between
+    # two small ones: the readers of the control and data parts share one file object and are used alternately
+    [("usr/bin/first", b"1st\n"), ("usr/share/big.bin", __import__("random").Random(7).randbytes(300000)), ("usr/share/last", b"last\n")],
 ]
+BIG = len(DATA_SETS) - 1
 
 
 def _compress(kind, raw):
@@ -150,7 +154,7 @@ def _part(kind, key, files):
 for _m in range(32):
     for _b in range(3):
         for _ds in range(len(DATA_SETS)):
-            if _m in (0, 31, 5, 10, 21) or (_b == 0 and _ds == 0):
+            if (_m in (0, 31, 5, 10, 21) and _ds != BIG) or (_b == 0 and _ds == 0) or (_ds == BIG and _m == 21 and _b == 0):
                 for _c in COMPRESSIONS:
                     _part(_c, ("ctrl", _m, _b, _ds), _control_files(_m, _b, _ds)[0])
 for _ds in range(len(DATA_SETS)):
@@ -165,8 +169,9 @@ def h_content(params, cc: int, dc: int, mask: int, bodysel: int, ds: int, order:
     assume(0 <= cc < 5 and 0 <= dc < 5)
     if "cc" in params:
         assume(cc == params["cc"])
+    assume((ds == BIG) == bool(params.get("big")))
     assume(0 <= mask < 32 and 0 <= bodysel < 3 and 0 <= ds < len(DATA_SETS) and 0 <= order < 3)
-    assume(mask in (0, 31, 5, 10, 21) or (bodysel == 0 and ds == 0))
+    assume((mask in (0, 31, 5, 10, 21) and ds != BIG) or (bodysel == 0 and ds == 0) or (ds == BIG and mask == 21 and bodysel == 0))
     if params.get("thin"):
         assume(order == (mask + dc + ds) % 3)
     files, scripts = _control_files(mask, bodysel, ds)
@@ -241,7 +246,9 @@ def partitions(tier, seed):
                           len(fixed), list(fixed), 12 - len(fixed), "one order per subset" if q else "3 rotations x 2 directions")))
     for cc in range(5):
         P.append(dict(name="content/ctrl-%s" % (COMPRESSIONS[cc] or "plain"), harness="h_content", params=dict(cc=cc, **({"thin": True} if q else {})), budget=120 if q else 900, reach=["read"],
-                      bounds="control part %s x 5 data compressions x script subsets (empty and non-empty bodies) x 4 data file sets x 3 member orders, chosen by symbolic index" % (COMPRESSIONS[cc] or "uncompressed")))
+                      bounds="control part %s x 5 data compressions x script subsets (empty and non-empty bodies) x 5 data file sets (one with a 300 kB incompressible member) x 3 member orders, chosen by symbolic index" % (COMPRESSIONS[cc] or "uncompressed")))
+    P.append(dict(name="content/big-member", harness="h_content", params=dict(big=True), budget=120 if q else 900, reach=["read"],
+                  bounds="5 x 5 compression pairs x 3 member orders around a 300 kB incompressible data member read between control queries (one shared file object)"))
     for stem, suffix in (("", True), ("usr/bin/", True), ("a", True), ("control", True), (".hidden", True), ("x", False), ("usr/share/doc/x y/", True)):
         for ln in ((0, 1, 2) if q else (0, 1, 2, 3)):
             if stem == "" and ln == 0:
